@@ -20,7 +20,7 @@ import (
 
 func init() { register("rsem", []string{"C01", "C02", "C18", "C24"}, runRsem) }
 
-const runnerR = "Model.Json Model.Expr Model.MinMax Model.QueryFn Cases.RunnerR"
+const runnerR = "Model.Json Model.Expr Model.MinMax Model.QueryFn Model.Matcher Cases.RunnerR"
 
 func violFor(c *Ctx) string {
 	switch {
